@@ -310,7 +310,10 @@ func (r *resolver) applyDeviation(y *Module, d *Deviation) error {
 			notifs := target.Parent().(HasNotifications).Notifications()
 			delete(notifs, target.Ident())
 		default:
-			hasDDefs := target.Parent().(HasDataDefinitions)
+			hasDDefs, valid := target.Parent().(HasDataDefinitions)
+			if !valid {
+				return fmt.Errorf("deviation %s - not-supported cannot remove a %T from a %T", d.Ident(), target, target.Parent())
+			}
 			existing := hasDDefs.popDataDefinitions()
 			for _, candidate := range existing {
 				if candidate != target {
@@ -327,41 +330,68 @@ func (r *resolver) applyDeviation(y *Module, d *Deviation) error {
 	hasDets, _ := target.(HasDetails)
 	hasType, _ := target.(Leafable)
 	hasListDets, _ := target.(HasListDetails)
+	hasMusts, _ := target.(HasMusts)
+	asList, _ := target.(*List)
+	// a deviate may only name properties its target can have: anything else is an error of the module
+	inapplicable := func(prop string) error {
+		return fmt.Errorf("deviation %s - a %T has no %s to deviate", d.Ident(), target, prop)
+	}
 	if d.Add != nil {
 		if d.Add.configPtr != nil {
+			if hasDets == nil {
+				return inapplicable("config")
+			}
 			if hasDets.IsConfigSet() {
 				return fmt.Errorf("config already set on %s", d.Ident())
 			}
 			hasDets.setConfig(*(d.Add).configPtr)
 		}
 		if d.Add.mandatoryPtr != nil {
+			if hasDets == nil {
+				return inapplicable("mandatory")
+			}
 			if hasDets.IsMandatorySet() {
 				return fmt.Errorf("mandatory already set on %s", d.Ident())
 			}
 			hasDets.setMandatory(*(d.Add).mandatoryPtr)
 		}
 		if d.Add.maxElementsPtr != nil {
+			if hasListDets == nil {
+				return inapplicable("max-elements")
+			}
 			if hasListDets.IsMaxElementsSet() {
 				return fmt.Errorf("max-elements already set on %s", d.Ident())
 			}
 			hasListDets.setMaxElements(*(d.Add).maxElementsPtr)
 		}
 		if d.Add.minElementsPtr != nil {
+			if hasListDets == nil {
+				return inapplicable("min-elements")
+			}
 			if hasListDets.IsMinElementsSet() {
 				return fmt.Errorf("min-elements already set on %s", d.Ident())
 			}
 			hasListDets.setMinElements(*(d.Add).minElementsPtr)
 		}
 		for _, must := range d.Add.musts {
-			target.(HasMusts).addMust(must)
+			if hasMusts == nil {
+				return inapplicable("must")
+			}
+			hasMusts.addMust(must)
 		}
 		if d.Add.units != "" {
+			if hasType == nil {
+				return inapplicable("units")
+			}
 			if hasType.Units() != "" {
 				return fmt.Errorf("units already set on %s", d.Ident())
 			}
 			hasType.setUnits(d.Add.units)
 		}
 		if d.Add.HasDefault() {
+			if hasType == nil {
+				return inapplicable("default")
+			}
 			if hasType.HasDefault() {
 				return fmt.Errorf("default already set on %s", d.Ident())
 			}
@@ -370,44 +400,68 @@ func (r *resolver) applyDeviation(y *Module, d *Deviation) error {
 			}
 		}
 		for _, unique := range d.Add.unique {
-			target.(*List).unique = append(target.(*List).unique, unique)
+			if asList == nil {
+				return inapplicable("unique")
+			}
+			asList.unique = append(asList.unique, unique)
 		}
 	}
 	if d.Replace != nil {
 		if d.Replace.dtype != nil {
+			if hasType == nil {
+				return inapplicable("type")
+			}
 			hasType.setType(d.Replace.dtype)
 		}
 		if d.Replace.configPtr != nil {
+			if hasDets == nil {
+				return inapplicable("config")
+			}
 			if !hasDets.IsConfigSet() {
 				return fmt.Errorf("config not set on %s", d.Ident())
 			}
 			hasDets.setConfig(*(d.Replace).configPtr)
 		}
 		if d.Replace.mandatoryPtr != nil {
+			if hasDets == nil {
+				return inapplicable("mandatory")
+			}
 			if !hasDets.IsMandatorySet() {
 				return fmt.Errorf("mandatory not set on %s", d.Ident())
 			}
 			hasDets.setMandatory(*(d.Replace).mandatoryPtr)
 		}
 		if d.Replace.maxElementsPtr != nil {
+			if hasListDets == nil {
+				return inapplicable("max-elements")
+			}
 			if !hasListDets.IsMaxElementsSet() {
 				return fmt.Errorf("max-elements not set on %s", d.Ident())
 			}
 			hasListDets.setMaxElements(*(d.Replace).maxElementsPtr)
 		}
 		if d.Replace.minElementsPtr != nil {
+			if hasListDets == nil {
+				return inapplicable("min-elements")
+			}
 			if !hasListDets.IsMinElementsSet() {
 				return fmt.Errorf("min-elements not set on %s", d.Ident())
 			}
 			hasListDets.setMinElements(*(d.Replace).minElementsPtr)
 		}
 		if d.Replace.units != "" {
+			if hasType == nil {
+				return inapplicable("units")
+			}
 			if hasType.Units() == "" {
 				return fmt.Errorf("units not set on %s", d.Ident())
 			}
 			hasType.setUnits(d.Replace.units)
 		}
 		if d.Replace.HasDefault() {
+			if hasType == nil {
+				return inapplicable("default")
+			}
 			if !hasType.HasDefault() {
 				return fmt.Errorf("default not set on %s", d.Ident())
 			}
@@ -423,6 +477,9 @@ func (r *resolver) applyDeviation(y *Module, d *Deviation) error {
 	}
 	if d.Delete != nil {
 		if d.Delete.units != "" {
+			if hasType == nil {
+				return inapplicable("units")
+			}
 			if hasType.Units() != d.Delete.units {
 				return fmt.Errorf("cannot delete units '%s' != '%s' on %s",
 					d.Delete.units, hasType.Units(), d.Ident())
@@ -430,6 +487,9 @@ func (r *resolver) applyDeviation(y *Module, d *Deviation) error {
 			hasType.setUnits("")
 		}
 		if d.Delete.HasDefault() {
+			if hasType == nil {
+				return inapplicable("default")
+			}
 			if !sameDefaults(hasType.DefaultValue(), d.Delete.DefaultValue()) {
 				return fmt.Errorf("cannot delete default '%s' != '%s' on %s",
 					d.Delete.Default(), hasType.DefaultValue(),
@@ -438,6 +498,9 @@ func (r *resolver) applyDeviation(y *Module, d *Deviation) error {
 			hasType.clearDefault()
 		}
 		for _, unique := range d.Delete.unique {
+			if asList == nil {
+				return inapplicable("unique")
+			}
 			found := false
 			var uniques [][]string
 			for _, candidate := range target.(*List).unique {
@@ -454,6 +517,9 @@ func (r *resolver) applyDeviation(y *Module, d *Deviation) error {
 			target.(*List).unique = uniques
 		}
 		for _, must := range d.Delete.musts {
+			if hasMusts == nil {
+				return inapplicable("must")
+			}
 			found := false
 			var musts []*Must
 			for _, candidate := range target.(HasMusts).Musts() {
